@@ -280,6 +280,41 @@ def gen_tree(rng, top, pool_names, markers, hostility):
     return spec
 
 
+def directed_specs(rng, top, kind, markers):
+    """the sequences the quantifier names: the same name is a directory in one tree and a symlink (to a place outside the work tree
+    or inside .git) in the next, in both orders; optionally the second checkout is refused half-way, and a last step goes back."""
+    T = os.fsencode(top)
+    N = rng.choice([b"d", b"lnk", b"b.txt", b"sub", b"x y"])
+    out_dirs = [b"../wt-shadow", b"../canary-dir", T + b"/canary-dir", T + b"/wt-shadow", b".git", b".git/hooks", b".git/canary-dir", b".git/info"]
+    tgt = rng.choice(out_dirs)
+
+    def mk():
+        m = b"HOSTILE-MARKER-%08x" % rng.getrandbits(32)
+        markers.append(m)
+        return m + b"\n"
+    kids = [(rng.choice([b"victim", b"file", b"canary.txt", b"pre-commit", b"config", b"exclude"]), rng.choice([0o100644, 0o100755]), mk())]
+    if rng.random() < 0.6:
+        kids.append((b"sub", 0o40000, [(b"deep", 0o100644, mk())]))
+    if rng.random() < 0.3:
+        kids.append((b"created", 0o100644, mk()))
+    keep = (b"keep", 0o100644, b"keep\n")
+    as_dir = [keep, (N, 0o40000, kids)]
+    as_link = [keep, (N, 0o120000, tgt)]
+    as_gitlink = [keep, (N, 0o160000, b"%d" % rng.getrandbits(32))]
+    as_file = [keep, (N, 0o100644, mk())]
+    poison = (b"zz", 0o40000, [(rng.choice([b".git", b"..", b".GIT"]), 0o40000, [(b"x", 0o100644, mk())])])
+    tail = rng.choice([[], [[keep]], [as_dir], [as_file]])
+    if kind == "dir-then-link":
+        return [as_dir, as_link] + tail
+    if kind == "link-then-dir":
+        return [as_link, as_dir] + tail
+    if kind == "dir-then-link-refused-midway":
+        return [as_dir, as_link + [poison]] + (tail or [[keep]])
+    if kind == "link-then-gitlink":
+        return [as_link, as_gitlink] + tail
+    return [as_file, as_dir, as_link] + tail[:1]
+
+
 def spec_shape(spec, depth=0):
     out = []
     for n, m, p in spec:
@@ -484,6 +519,12 @@ def run_case(case):
     try:
         store = r.object_store
         specs = [gen_tree(rng, top, pool_names, markers, hostility) for _ in range(nsteps)]
+        directed = case.get("directed")
+        if directed is None and rng.random() < 0.35:
+            directed = rng.choice(["dir-then-link", "link-then-dir", "dir-then-link-refused-midway", "link-then-gitlink", "file-then-dir-then-link"])
+        if directed:
+            specs = directed_specs(rng, top, directed, markers)
+            nsteps = len(specs)
         benign = [(b"a", 0o100644, b"victim\n"), (b"b.txt", 0o100644, b"canary\n"), (b"dir", 0o40000, [(b"x", 0o100644, b"victim\n")])]
         base_tree = put_spec(store, benign, markers)
         c0 = put_commit(store, base_tree, [])
@@ -525,6 +566,12 @@ def run_case(case):
     else:
         for i in range(nsteps):
             steps.append((driver if rng.random() < 0.7 else rng.choice(["reset_index", "reset-hard", "checkout", "update_working_tree"]), i))
+    # last step back to the benign base commit (recovering after a refused checkout must not follow what was left behind)
+    if driver not in ("clone", "stash", "patch") and rng.random() < 0.5:
+        trees.append(base_tree)
+        commits.append(c0)
+        shapes.append("f:a,f:b.txt,d:dir(f:x)")
+        steps.append((rng.choice(["reset-hard", "checkout", "reset_index", "update_working_tree"]), len(trees) - 1))
     prev_tree = None
     outcomes = []
     for op, i in steps:
@@ -675,6 +722,10 @@ def main(ctx):
     for d in ("reset_index", "reset-hard", "checkout", "update_working_tree", "clone", "stash", "patch", "mixed-then-hard", "switch"):
         for i in range(ctx.budget(120, 1500)):
             cases.append({"seed": "%d/%s/%d" % (ctx.seed, d, i), "driver": d})
+    for k in ("dir-then-link", "link-then-dir", "dir-then-link-refused-midway", "link-then-gitlink", "file-then-dir-then-link"):
+        for d in ("reset-hard", "checkout", "update_working_tree", "reset_index", "mixed-then-hard", "switch", "stash", "clone"):
+            for i in range(ctx.budget(12, 150)):
+                cases.append({"seed": "%d/%s/%s/%d" % (ctx.seed, k, d, i), "driver": d, "directed": k})
     ctx.rule = ("random sequences of 1-3 raw-built trees (names from an adversarial alphabet of 41 names incl. '..', '', '.git' variants, NTFS/HFS aliases, "
                 "embedded '/', '\\\\', absolute paths into the sandbox, drive prefixes; symlinks to absolute/parent/sibling/.git targets; set-id/sticky/"
                 "world-writable/odd modes; gitlinks; nested dirs; 3 pooled names whose type changes between steps) x drivers {WorkTree.reset_index, "
